@@ -79,9 +79,11 @@ func NewComponentTransport(config TransportConfiguration) (Transport, error) {
 
 // hasURLScheme reports whether addr is a URL with the given scheme, that is whether
 // it starts with the scheme followed by "://". A plain "host:port" whose host is
-// named like a scheme ("ws:5222") is not a URL.
+// named like a scheme ("ws:5222") is not a URL. Schemes are case-insensitive
+// (RFC 3986, section 3.1): "WSS://host/" is a wss URL.
 func hasURLScheme(addr, scheme string) bool {
-	return strings.HasPrefix(addr, scheme+"://")
+	n := len(scheme)
+	return len(addr) >= n+3 && strings.EqualFold(addr[:n], scheme) && addr[n:n+3] == "://"
 }
 
 // isWebsocketAddress reports whether addr is a ws:// or wss:// URL.
